@@ -157,9 +157,11 @@ def run_resolve(comp, seed, tid):
 
 def run_binding(ck, pool, tier, seed):
     # ---- the same solver object used twice: diagnostics are per solve (design: specs/solvers/SolverObject.tla)
-    from .purity import solver_object_design
+    from .purity import solver_object_design, solver_object_inductive
     try:
         solver_object_design(ck)
+        if tier == "thorough":
+            solver_object_inductive(ck)
     except tlc.TLCError as e:
         ck.machinery(str(e)[:2000])
         return
